@@ -143,7 +143,7 @@ pub fn gen_history(cfg: &HistCfg, rng: &mut Rng) -> Vec<Op> {
         }
         let v = if nvars > 0 { rng.below(nvars) } else { 0 };
         let r = rng.below(100);
-        let op = if nvars == 0 {
+        let op = if nvars == 0 || (cfg.n0 == 0 && new_left > 0 && rng.chance(1, 3)) {
             if new_left > 0 {
                 Op::NewVar(rng.bool())
             } else {
@@ -743,6 +743,8 @@ pub fn random_cfg(rng: &mut Rng, max_n: usize, hostile: bool) -> HistCfg {
     let n0 = rng.range(1, max_n);
     let max_new = if rng.chance(1, 3) { rng.range(1, 2) } else { 0 };
     let n0 = if n0 + max_new > max_n { max_n - max_new } else { n0 };
+    // now and then a manager that starts without any variable: everything is added at run time
+    let (n0, max_new) = if max_n >= 3 && rng.chance(1, 15) { (0, rng.range(1, 3)) } else { (n0, max_new) };
     let cache = if rng.bool() { CacheKind::All } else { CacheKind::Lru };
     let (uniq_cap, lru_bits) = if hostile {
         (Some(*rng.pick(&[2usize, 4, 8, 16, 64])), Some(rng.below(5)))
